@@ -45,7 +45,15 @@ func (p *Prog) buildNamed() []*types.Named {
 }
 
 func sigKey(s *types.Signature) string {
-	return types.TypeString(types.NewSignatureType(nil, nil, nil, s.Params(), s.Results(), s.Variadic()), nil)
+	// parameter and result names are not part of a function type's identity
+	strip := func(t *types.Tuple) *types.Tuple {
+		vs := make([]*types.Var, t.Len())
+		for i := 0; i < t.Len(); i++ {
+			vs[i] = types.NewVar(0, nil, "", t.At(i).Type())
+		}
+		return types.NewTuple(vs...)
+	}
+	return types.TypeString(types.NewSignatureType(nil, nil, nil, strip(s.Params()), strip(s.Results()), s.Variadic()), nil)
 }
 
 // CallGraph builds (once) the workspace call graph.
